@@ -790,7 +790,11 @@ func (e *Engine) loadRaw(st *State, p *PtrSV, t types.Type) SV {
 		out[i] = term
 		e.assumeLoadedLeaf(l, term, st)
 	}
-	return e.unflat(t, out)
+	v := e.unflat(t, out)
+	if e.vc.noDef == 0 {
+		e.assumeWF(t, v) // slice headers in memory are well formed (len <= cap, ...)
+	}
+	return v
 }
 
 func (e *Engine) assumeLoadedLeaf(l Leaf, term string, st *State) {
